@@ -93,11 +93,15 @@ func GenerateMatrix(r *lp.Rng, index int) *Design {
 			where = "body"
 		}
 		if where == "cookie" && prim != "String" {
-			// response cookies carry strings; the other attributes travel in the body, or — every second
-			// time — in headers, so that one response has headers and cookies
-			where = "body"
-			if (index/3)%2 == 1 && prim != "Bytes" {
+			// every fourth time the non-string attributes travel in cookies too; otherwise in the body, or in
+			// headers, so that one response has headers and cookies
+			switch {
+			case (index/3)%4 == 3 && prim != "Bytes":
+				where = "cookie"
+			case (index/3)%2 == 1 && prim != "Bytes":
 				where = "header"
+			default:
+				where = "body"
 			}
 		}
 		name := "r_" + strings.ToLower(prim)
